@@ -1,7 +1,7 @@
 (* Property C10 -- path editing has list semantics.  Statements only. *)
 From Coq Require Import List NArith Bool Arith.
 Import ListNotations.
-Require Import V.Regex V.Parse V.ParseProofs V.PathSpec V.Splice V.Setters V.Iter V.PathQ V.Push V.PathMut V.PathMutProofs V.C10Proofs.
+Require Import V.Regex V.Parse V.ParseProofs V.PathSpec V.Splice V.Setters V.Iter V.PathQ V.Push V.PathMut V.PathMutProofs V.C10Proofs V.PushWf V.NormProofs V.PopProofs V.SymProofs.
 Local Open Scope nat_scope.
 
 (* push appends exactly the pushed segment to the segment sequence (sequences taken with "."
@@ -32,6 +32,46 @@ Print Assumptions C10_clear_handle.
 Theorem C10_clear_no_segments : forall v, segs (clear1 v) = [] /\ is_abs (clear1 v) = is_abs v.
 Proof. intros v. split; [apply clear1_segs|]. unfold clear1. destruct (is_abs v); reflexivity. Qed.
 Print Assumptions C10_clear_no_segments.
+
+(* POP.  On every path free of '?' and '#' (every valid path) the list-level pop is defined -- the backward scan
+   never leaves the path -- and equals pop_text: "/" is left alone; "" and paths whose last segment is ".." get
+   ".." appended; otherwise the text is cut at the '/' that precedes the last segment *)
+Theorem C10_pop_total : forall start0 fa v, none_of [QM; HASH] v -> pop1 start0 fa v = Some (pop_text start0 fa v).
+Proof. exact pop1_spec. Qed.
+Print Assumptions C10_pop_total.
+
+(* the list law of pop: a non-empty path whose last segment x is not ".." loses exactly x and keeps its
+   absoluteness.  The excluded shape is is_abs v /\ l' = [[]], i.e. "//x": there the remaining lone empty segment
+   vanishes too -- recorded finding K_pop_dslash, witness C10_K_pop_dslash_witness *)
+Theorem C10_pop_law_partial : forall start0 fa v l' x, none_of [QM; HASH] v -> path_is_empty v = false ->
+  segs v = l' ++ [x] -> is_dotdot x = false -> ~ (is_abs v = true /\ l' = [[]]) ->
+  exists v', pop1 start0 fa v = Some v' /\ segs v' = l' /\ is_abs v' = is_abs v.
+Proof. exact pop_law. Qed.
+Print Assumptions C10_pop_law_partial.
+Theorem C10_K_pop_dslash_witness : pop1 false true [47;47;97]%N = Some [47%N] /\ segs [47;47;97]%N = [[]; [97%N]] /\ segs [47%N] = [].
+Proof. vm_compute. repeat split; reflexivity. Qed.
+Print Assumptions C10_K_pop_dslash_witness.
+
+(* nothing to remove: pop appends ".." (then C10_push_law applies) *)
+Theorem C10_pop_pushes_dotdot : forall start0 fa v, none_of [QM; HASH] v ->
+  (v = [] \/ (path_is_empty v = false /\ last_is_dotdot (segs v) = true)) -> pop1 start0 fa v = Some (push start0 fa v DOTDOT).
+Proof. exact pop_pushes_dotdot. Qed.
+Print Assumptions C10_pop_pushes_dotdot.
+
+(* the same through the INDEX-LEVEL handle, with the well-formedness of the path in its context (after an authority
+   or not, at the start of the buffer or not) kept: pop, and the symbolic operations built on push and pop *)
+Theorem C10_pop_handle : forall hs ha h before v after, HInv hs ha h before v after ->
+  exists h', pm_pop h = Some h' /\ HInv hs ha h' before (pop_text (negb hs && negb ha) ha v) after.
+Proof. exact hpop. Qed.
+Print Assumptions C10_pop_handle.
+Theorem C10_symbolic_append_handle : forall hs ha h before v after segs, HInv hs ha h before v after -> Forall seg_arg segs ->
+  exists h', pm_symbolic_append h segs = Some h' /\ HInv hs ha h' before (sym_append1 (negb hs && negb ha) ha v segs) after.
+Proof. exact happend. Qed.
+Print Assumptions C10_symbolic_append_handle.
+Theorem C10_symbolic_push_handle : forall hs ha h before v after seg, HInv hs ha h before v after -> seg_arg seg ->
+  exists h', pm_symbolic_push_pub h seg = Some h' /\ HInv hs ha h' before (sym_push1 (negb hs && negb ha) ha v seg) after.
+Proof. exact hsympush. Qed.
+Print Assumptions C10_symbolic_push_handle.
 
 (* ANY sequence of push / pop / clear through ONE handle: whenever the list-level edits of the view are defined
    (pop's scan cannot panic on a non-empty view), the index-level handle performs them without panic, its
